@@ -88,6 +88,10 @@ static int flushData(scpi_t * context) {
 static size_t writeDelimiter(scpi_t * context) {
     if (context->output_count > 0) {
         return writeData(context, ",", 1);
+    } else if (context->output_count < 0) {
+        /* first result of this unit and some previous unit has already responded */
+        context->output_count = 0;
+        return writeData(context, ";", 1);
     } else {
         return 0;
     }
@@ -133,15 +137,10 @@ static scpi_bool_t processCommand(scpi_t * context) {
     const scpi_command_t * cmd = context->param_list.cmd;
     lex_state_t * state = &context->param_list.lex_state;
     scpi_bool_t result = TRUE;
-    scpi_bool_t is_query = context->param_list.cmd_raw.data[context->param_list.cmd_raw.length - 1] == '?';
-
-    /* conditionally write ; */
-    if(!context->first_output && is_query) {
-        writeData(context, ";", 1);
-    }
 
     context->cmd_error = FALSE;
-    context->output_count = 0;
+    /* negative count - response message unit separator is pending */
+    context->output_count = context->first_output ? 0 : -1;
     context->input_count = 0;
     context->arbitrary_remaining = 0;
 
@@ -155,12 +154,13 @@ static scpi_bool_t processCommand(scpi_t * context) {
         } else {
             if (context->cmd_error) {
                 result = FALSE;
-            } else {
-                if(context->first_output && is_query) {
-                    context->first_output = FALSE;
-                }
             }
         }
+    }
+
+    /* this unit has responded - following units are separated by ; */
+    if (context->output_count > 0) {
+        context->first_output = FALSE;
     }
 
     /* set error if command callback did not read all parameters */
